@@ -8,6 +8,7 @@ mod mpcrun;
 mod mutate;
 mod schema;
 mod selftest;
+mod server;
 mod sim;
 
 use framework::Tier;
@@ -55,6 +56,16 @@ fn main() {
             }
             let Some(c) = checks::by_id(&a[2]) else { usage() };
             std::process::exit(framework::replay_main(c.as_ref(), &a[3]));
+        }
+        "srv-debug" => {
+            sim::install_panic_hook();
+            let spec: server::ServerSpec = serde_json::from_str(&std::fs::read_to_string(&a[2]).unwrap()).unwrap();
+            let run = server::run(&spec);
+            for l in &run.log {
+                println!("{l}");
+            }
+            println!("calls: {:?}", run.calls);
+            println!("permits {:?} stalled {:?} panics {:?} pending {:?}", run.permits, run.stalled_machines, run.panics, run.pending_at_end);
         }
         "selftest-determinism" => {
             let n = a.get(2).and_then(|s| s.parse().ok()).unwrap_or(200);
